@@ -1014,6 +1014,10 @@ val representable_full : member -> bool
 
 val spec_build2 : member -> kv list
 
+val spec_chunk : chunk_cfg -> kv list
+
+val spec_item : item_cfg -> kv list
+
 val last_of : (op -> 'a1 option) -> op list -> 'a1 -> 'a1
 
 val all_of : (op -> 'a1 option) -> op list -> 'a1 list
